@@ -18,6 +18,8 @@ func init() {
 			{Pkg: "wire", Entry: "VerifH03c", What: "session level: surplus/unread fields of one message never change what the next message produces",
 				Quick: map[string]int{"S": 3}, Thorough: map[string]int{"S": 5},
 				Witnesses: []string{"surplus-then-empty-body", "second-parsed"}},
+			{Pkg: "wire", Entry: "VerifH11", What: "SSLRequest and the following startup packet arriving in ONE read (maximal read-ahead): the refusal path keeps the bytes already buffered",
+				Quick: map[string]int{"STUFF": 2}, Witnesses: []string{"refused-then-plaintext"}},
 			{Pkg: "buffer", Entry: "VerifH10b", What: "a skipped (oversized) message is consumed in exactly its declared length, for every segmentation",
 				Quick: map[string]int{"LMAX": 2}, Thorough: map[string]int{"LMAX": 3}, Witnesses: []string{"multi-chunk"}},
 			{Pkg: "wire", Entry: "VerifH10c", What: "session: the message after a skipped one is interpreted from its own first byte",
